@@ -2,11 +2,14 @@
 package c13
 
 import (
+	"bytes"
 	"context"
 	"errors"
 	"flag"
 	"fmt"
 	"os"
+	"perkeep.org/pkg/blobserver/memory"
+	"perkeep.org/pkg/schema"
 	"sort"
 	"strings"
 	"sync"
@@ -33,7 +36,7 @@ import (
 const prop = "C13"
 
 func TestMain(m *testing.M) {
-	vmodel.CallTimeout = 15 * time.Minute // the vwatch watchdog (with its parked-goroutine analysis) fires first
+	vmodel.CallTimeout = 15 * time.Minute                                     // the vwatch watchdog (with its parked-goroutine analysis) fires first
 	vcompose.LeafTypes = []string{"verif", "verif", "diskpacked", "filesvfs"} // fault-injectable leaves (diskpacked: its index is a harness KV)
 	evid.Main(m, prop, "fault_enumeration",
 		"a backend tree (depth<=3, leaves = harness 'verif' stores and diskpacked with a harness KV index; every KV of blobpacked/encrypt/overlay/namespace is a harness KV) and an operation list (receive/fetch/stat batches of 3-60 refs/enumerate/remove) are generated; a dry run counts the lower-layer calls N; then the same history is re-run with a transient error injected at the k-th lower-layer call (every k in thorough, drawn k in quick; plain failure or performed-but-error), or with a burst of several failing calls; "+
@@ -111,12 +114,14 @@ func genOps(t *rapid.T, pool []vgen.Blob, caps vcompose.Caps, n int) []op {
 }
 
 type caseDef struct {
+	MaxZip  int // forced maximum zip size for blobpacked nodes (0 = default) when the history uploads a packable file
+	HasFile bool
 	Preload [][]int // per preload leaf (overlay lower / union subsets): pool indexes stored there before the history
-	Tree  *vcompose.Node
-	Pool  []vgen.Blob
-	Ops   []op
-	Heal  []op
-	Desc  string
+	Tree    *vcompose.Node
+	Pool    []vgen.Blob
+	Ops     []op
+	Heal    []op
+	Desc    string
 }
 
 // A fault is addressed by (layer, op, key, n-th occurrence of that triple): unlike a global call
@@ -143,14 +148,14 @@ func addrOf(e *vstore.Event, counts map[string]int) string {
 }
 
 type result struct {
-	calls      int    // lower-layer calls during the fault phase
-	addrs      []string // their addresses, sorted (dry run)
-	violation  error
-	inconcl    string
-	hitInside  bool // a fault was delivered not as the first lower call of an op
-	retried    bool // a failed mutation was retried after the faults stopped
-	hits       int
-	knownID    string
+	calls     int      // lower-layer calls during the fault phase
+	addrs     []string // their addresses, sorted (dry run)
+	violation error
+	inconcl   string
+	hitInside bool // a fault was delivered not as the first lower call of an op
+	retried   bool // a failed mutation was retried after the faults stopped
+	hits      int
+	knownID   string
 }
 
 type timeoutErr struct{ res vwatch.Result }
@@ -210,6 +215,16 @@ func run(cd *caseDef, faults []fault, recoverAfter bool) (res result) {
 		return
 	}
 	defer func() { b.Release() }()
+	setMaxZip := func() {
+		if cd.MaxZip > 0 {
+			walkTree(cd.Tree, func(n *vcompose.Node) {
+				if n.Type == "blobpacked" {
+					blobpacked.VerifSetMaxZipSize(b.Storage(n), cd.MaxZip)
+				}
+			})
+		}
+	}
+	setMaxZip()
 	model := vmodel.New()
 	stableKeys = map[string]bool{vgen.RefOf("sha224", []byte("never-stored")).String(): true}
 	for _, pb := range cd.Pool {
@@ -462,6 +477,9 @@ func run(cd *caseDef, faults []fault, recoverAfter bool) (res result) {
 	default:
 		return
 	}
+	if rerr == nil {
+		setMaxZip()
+	}
 	trace = append(trace, fmt.Sprintf("recovery(%s) -> %v", root.Type, rerr))
 	if rerr != nil {
 		fail("C13 violated: the store's own recovery procedure failed after the faults stopped: %v", rerr)
@@ -516,6 +534,38 @@ func knownSig(cd *caseDef, faults []fault, o op, m *vmodel.Mismatch, healthy boo
 	return ""
 }
 
+func walkTree(n *vcompose.Node, f func(*vcompose.Node)) {
+	f(n)
+	for _, k := range n.Kids {
+		walkTree(k, f)
+	}
+}
+
+// packableFile cuts a file just above blobpacked's packing threshold into blobs (chunks, bytes schema
+// blobs, the file schema blob last) with schema.WriteFileFromReader over a staging store.
+func packableFile(seed uint64, size int) ([]vgen.Blob, error) {
+	staging := &memory.Storage{}
+	content := vgen.Noise(seed, size)
+	fileRef, err := schema.WriteFileFromReader(ctx, staging, fmt.Sprintf("c13-%d.bin", seed), bytes.NewReader(content))
+	if err != nil {
+		return nil, err
+	}
+	var out []vgen.Blob
+	var fileBlob vgen.Blob
+	for _, rs := range staging.BlobrefStrings() {
+		br := blob.MustParse(rs)
+		c, _ := staging.BlobContents(br)
+		vb := vgen.Blob{Ref: br, Data: []byte(c), Class: "file-part"}
+		if br == fileRef {
+			vb.Class = "file-schema"
+			fileBlob = vb
+			continue
+		}
+		out = append(out, vb)
+	}
+	return append(out, fileBlob), nil
+}
+
 func genCase(t *rapid.T) *caseDef {
 	root := ""
 	if rapid.IntRange(0, 9).Draw(t, "forceRoot") < 7 {
@@ -538,6 +588,31 @@ func genCase(t *rapid.T) *caseDef {
 	}
 	cd.Ops = genOps(t, pool, caps, rapid.IntRange(3, 10).Draw(t, "nOps"))
 	cd.Heal = genOps(t, pool, caps, rapid.IntRange(3, 5).Draw(t, "nHeal"))
+	// trees with a blobpacked node sometimes upload a packable file: the fault then lands inside the pack
+	// (zip stored, meta batch, loose-blob deletion, whole-file row) while the same instance keeps running
+	hasBP := false
+	walkTree(tree, func(n *vcompose.Node) {
+		if n.Type == "blobpacked" {
+			hasBP = true
+		}
+	})
+	if hasBP && caps.Receive && rapid.IntRange(0, 2).Draw(t, "packableFile") == 0 {
+		parts, err := packableFile(rapid.Uint64Range(1, 1<<16).Draw(t, "fileSeed"), 512<<10+rapid.IntRange(1, 300<<10).Draw(t, "fileExtra"))
+		if err != nil {
+			t.Fatalf("harness: cutting the file: %v", err)
+		}
+		base := len(cd.Pool)
+		cd.Pool = append(cd.Pool, parts...)
+		var fileOps []op
+		for i := range parts {
+			fileOps = append(fileOps, op{Kind: "receive", Idx: []int{base + i}, Reader: "whole"})
+		}
+		pos := rapid.IntRange(0, len(cd.Ops)).Draw(t, "fileAt")
+		cd.Ops = append(append(append([]op{}, cd.Ops[:pos]...), fileOps...), cd.Ops[pos:]...)
+		cd.HasFile = true
+		cd.MaxZip = rapid.SampledFrom([]int{0, 300 << 10, 450 << 10}).Draw(t, "maxZip")
+		cd.Desc += fmt.Sprintf(" +packable file (%d blobs, maxZip %d)", len(parts), cd.MaxZip)
+	}
 	return cd
 }
 
@@ -571,6 +646,7 @@ func TestSingleFaults(t *testing.T) {
 		if n == 0 {
 			t.Skip("history makes no lower-layer call")
 		}
+
 		var ks []int
 		if evid.Thorough() {
 			for k := 0; k < n && k < 400; k++ {
@@ -584,9 +660,17 @@ func TestSingleFaults(t *testing.T) {
 			var kinds []string
 			for i, a := range dry.addrs {
 				f := strings.Fields(a)
+				// kind = (class of the layer, operation): "kv-bpmeta commit", "kv-dpindex set", "store receive", "fs rename" ...
 				kind := f[0]
+				if i := strings.IndexByte(kind, ':'); i >= 0 {
+					cls, rest := kind[:i], kind[i+1:]
+					if j := strings.IndexByte(rest, '-'); cls == "kv" && j >= 0 {
+						cls += "-" + rest[j+1:]
+					}
+					kind = cls
+				}
 				if len(f) > 1 {
-					kind = f[1]
+					kind += " " + f[1]
 				}
 				if _, ok := groups[kind]; !ok {
 					kinds = append(kinds, kind)
@@ -594,8 +678,8 @@ func TestSingleFaults(t *testing.T) {
 				groups[kind] = append(groups[kind], i)
 			}
 			sort.Strings(kinds)
-			if len(kinds) > 6 {
-				kinds = rapid.Permutation(kinds).Draw(t, "kinds")[:6]
+			if len(kinds) > 8 {
+				kinds = rapid.Permutation(kinds).Draw(t, "kinds")[:8]
 			}
 			for _, kind := range kinds {
 				g := groups[kind]
@@ -605,10 +689,17 @@ func TestSingleFaults(t *testing.T) {
 		recoverRoot := cd.Tree.Type == "diskpacked" || cd.Tree.Type == "encrypt" || cd.Tree.Type == "blobpacked"
 		for _, k := range ks {
 			for _, beh := range []vstore.Behaviour{vstore.Fail, vstore.FailAfter} {
+				if beh == vstore.FailAfter && strings.HasPrefix(dry.addrs[k], "kv:") {
+					continue // identical to Fail for key/value layers (see run)
+				}
 				fs := []fault{{Addr: dry.addrs[k], Beh: beh}}
 				res := run(cd, fs, recoverRoot)
+
 				evid.R.Eval()
 				evid.R.Label("single/root=" + cd.Tree.Type)
+				if cd.HasFile {
+					evid.R.Label("single/history-uploads-packable-file")
+				}
 				if res.inconcl != "" {
 					t.Fatalf("VERIF-INCONCLUSIVE: %s", res.inconcl)
 				}
@@ -675,6 +766,9 @@ func TestFaultBursts(t *testing.T) {
 		res := run(cd, fs, recoverRoot)
 		evid.R.Eval()
 		evid.R.Label("burst/root=" + cd.Tree.Type)
+		if cd.HasFile {
+			evid.R.Label("burst/history-uploads-packable-file")
+		}
 		if res.inconcl != "" {
 			t.Fatalf("VERIF-INCONCLUSIVE: %s", res.inconcl)
 		}
